@@ -651,6 +651,15 @@ def build_misc(d):
         a = pyrtl.Input(4, 'a')
         o = pyrtl.Output(8, 'o')
         o <<= rom[a]
+    elif k == 'rom_many_ports':
+        # more read ports than one ROM instance allows: build_new_roms makes further instances behind the scenes, each of
+        # which must be the same ROM (contents, padding)
+        rom = pyrtl.RomBlock(bitwidth=5, addrwidth=3, romdata=[3, 9, 17, 30, 1], name='rom', asynchronous=True, pad_with_zeros=True,
+                             max_read_ports=2, build_new_roms=True)
+        a, b = pyrtl.Input(3, 'a'), pyrtl.Input(3, 'b')
+        for i, adr in enumerate((a, b, a, pyrtl.Const(6, 3), b)):      # (repeated address wires: no further case splits)
+            o = pyrtl.Output(5, 'o%d' % i)
+            o <<= rom[adr]
     else:
         raise ValueError(k)
     return pyrtl.working_block()
@@ -671,6 +680,7 @@ def misc_cases():
     for k in ('mem_const_addr', 'mem_clear_port', 'mem_tied_enable'):
         out.append({'fam': 'MISC', 'kind': k, 'w': 3})
     out.append({'fam': 'MISC', 'kind': 'rom_sparse_pad'})
+    out.append({'fam': 'MISC', 'kind': 'rom_many_ports'})
     out.append({'fam': 'MISC', 'kind': 'dup_regs', 'w': 1})
     out.append({'fam': 'MISC', 'kind': 'dup_regs', 'w': 3})
     return out
